@@ -809,6 +809,8 @@ impl<TStdlib: Stdlib, TStdIn: Input, TStdOut: Printer, TLpt1: Printer>
         if let Some(base) = self.pop_nesting_base(NestingKind::Handler) {
             self.register_stack.truncate(base.registers);
             self.value_stack.truncate(base.values);
+            // the GOSUBs of the handler that were never returned from
+            self.go_sub_address_stack.truncate(base.go_subs);
         }
     }
 
